@@ -1,12 +1,15 @@
 #!/usr/bin/env python3
 """mutation matrix: every seeded change × every check (quick tier), on scratch worktrees of /repo
-(VERIF_REPO) so that /repo itself is never touched; C20 (which regenerates Lean facts) is run
-sequentially. Writes seeded/matrix.json."""
+(VERIF_REPO) so that /repo itself is never touched; C20 (which regenerates Lean facts inside the
+harness directory) is run one at a time. Run it from a snapshot copy of /verif (VERIF_DIR) so that
+neither edits nor the regenerated facts disturb the live tree. Writes seeded/matrix.json."""
 import json, os, subprocess, sys, shutil, concurrent.futures as cf
 V = os.environ.get("VERIF_DIR", "/verif")   # a snapshot copy may be used so that edits in /verif do not disturb a running matrix
 OUTV = "/verif"
 PROPS = [f"C{n:02d}" for n in range(1, 21)]
 PAR = [p for p in PROPS if p != "C20"]
+import threading
+C20_LOCK = threading.Lock()
 
 
 def sh(cmd, cwd=None, env=None, timeout=3600):
@@ -32,6 +35,14 @@ def run_mutant(mid, slot):
         res[p] = {"rc": rc, "violations": len(v), "with_failing_input": sum("no-failing-input-found" not in l for l in v)}
         if rc == 2:
             res[p]["log"] = o[-300:]
+    # C20 regenerates Lean facts inside V/lean (shared), so one at a time; still on the scratch worktree
+    with C20_LOCK:
+        env20 = dict(os.environ, VERIF_REPO=wt, VERIF_OUT=out, VERIF_JOBS="4")
+        rc, o = sh("./check C20 quick", cwd=V, env=env20, timeout=1800)
+        v = [l for l in o.splitlines() if l.startswith("VIOLATION")]
+        res["C20"] = {"rc": rc, "violations": len(v), "with_failing_input": sum("no-failing-input-found" not in l for l in v)}
+        if rc == 2:
+            res["C20"]["log"] = o[-300:]
     sh("git checkout -q -- .", cwd=wt)
     return mid, res
 
@@ -48,14 +59,6 @@ def main():
                 results[mid] = res
                 caught = [p for p, r in res.items() if isinstance(r, dict) and r.get("rc") == 1]
                 print(mid, "caught by", caught, flush=True)
-    # C20 sequentially on /repo itself
-    for mid in mids:
-        rc, o = sh(f"git -C /repo apply {V}/seeded/{mid}/patch.diff")
-        if rc == 0:
-            rc, o = sh("./check C20 quick", cwd=V, env=dict(os.environ, VERIF_OUT="/tmp/wt/outc20"))
-            v = [l for l in o.splitlines() if l.startswith("VIOLATION")]
-            results[mid]["C20"] = {"rc": rc, "violations": len(v), "with_failing_input": sum("no-failing-input-found" not in l for l in v)}
-        sh("git -C /repo checkout -- .")
     old = {}
     if len(sys.argv) > 1 and os.path.exists(f"{OUTV}/seeded/matrix.json"):
         old = json.load(open(f"{OUTV}/seeded/matrix.json"))
